@@ -58,6 +58,7 @@ func ParseInput(s string) (*History, error) {
 }
 
 const prelude = `local K, R, RES, ERRF, SPIN, NEST = {}, {}, {}, {}, {}, {}
+regkr(K, R)
 local function fin(o)
   local id = oid(o)
   local c = runtime.context()
